@@ -1,5 +1,53 @@
 import Hive.Base.Proto
-open Hive.Proto
+import Hive.Gen.C19_SafeMath
+open Hive.Proto Hive.GoInt Hive.Gen.SafeMath
 
-/-- Placeholder driver: answers `unimplemented` to every request. -/
-def main : IO Unit := run () (fun s _ => (s, "unimplemented"))
+/-- Evaluates the definitions generated from safe_math.go and the Go operator semantics. -/
+def stepC19 (_ : Unit) (toks : List String) : Unit × String :=
+  let int? (s : String) : Option Int := s.toInt?
+  let out : String :=
+    match toks with
+    | ["safe", op, k, x, y] =>
+      match parseTy k, int? x, int? y with
+      | some T, some x, some y =>
+        match op with
+        | "add" => showRes (SafeAdd T x y)
+        | "sub" => showRes (SafeSub T x y)
+        | "mul" => showRes (SafeMul T x y)
+        | "div" => showRes (SafeDiv T x y)
+        | "shl" => showRes (SafeLeftShift T x y)
+        | _ => "bad-op"
+      | _, _, _ => "bad-op"
+    | ["raw", op, k, x, y] =>
+      match parseTy k, int? x, int? y with
+      | some T, some x, some y =>
+        match op with
+        | "add" => toString (T.add x y)
+        | "sub" => toString (T.sub x y)
+        | "mul" => toString (T.mul x y)
+        | "div" => toString (T.div x y)
+        | "and" => toString (T.and x y)
+        | "neg" => toString (T.neg x)
+        | "shl" => toString (T.shl x y)
+        | "shr" => toString (T.shr x y)
+        | "tou64" => toString (IntTy.u64.wrap x)
+        | "toi64" => toString (IntTy.i64.wrap x)
+        | "tou8" => toString (IntTy.u8.wrap x)
+        | _ => "bad-op"
+      | _, _, _ => "bad-op"
+    | ["mulu64", x, y] =>
+      match int? x, int? y with
+      | some x, some y => showRes (SafeMulUint64 x y)
+      | _, _ => "bad-op"
+    | ["muli64", x, y] =>
+      match int? x, int? y with
+      | some x, some y => showRes (SafeMulInt64 x y)
+      | _, _ => "bad-op"
+    | ["muldiv", x, y, d] =>
+      match int? x, int? y, int? d with
+      | some x, some y, some d => showRes (Safe64MulDiv x y d)
+      | _, _, _ => "bad-op"
+    | _ => "bad-op"
+  ((), out)
+
+def main : IO Unit := Hive.Proto.run () stepC19
